@@ -2,6 +2,7 @@
 package c07
 
 import (
+	"reflect"
 	"fmt"
 	"math"
 	"strings"
@@ -61,6 +62,9 @@ func checkBack(what, p string, t codon.Table, f ctab.Flat) error {
 	}
 	if len(dna) != 3*len(p) {
 		return vk.Errf("Optimize(%q) with %s returned %d bases for %d residues", p, what, len(dna), len(p))
+	}
+	if f2, err := ctab.Flatten(t); err != nil || !reflect.DeepEqual(f2.W, f.W) || !reflect.DeepEqual(f2.L, f.L) {
+		return vk.Errf("Optimize(%q) with %s changed the table it was given (%v)", p, what, err)
 	}
 	back, err := codon.Translate(dna, t)
 	if err != nil || back != p {
